@@ -138,7 +138,7 @@ static void mt_print(FILE *f, int m, const void *p)
         case M_SHORT: fprintf(f, "%d", (int)*(const short *)p); break;
         case M_INT: fprintf(f, "%d", *(const int *)p); break;
         case M_LONG: fprintf(f, "%ld", *(const long *)p); break;
-        case M_FLOAT: { float x; unsigned u; memcpy(&x, p, 4); memcpy(&u, p, 4); if (x != x) fprintf(f, "nan:%08x", u); else fprintf(f, "%.9g", (double)x); break; }
+        case M_FLOAT: { float x; unsigned u; memcpy(&x, p, 4); memcpy(&u, p, 4); if (x != x) fprintf(f, "nan:%08x", u); else fprintf(f, "%.17g", (double)x); break; }
         case M_DOUBLE: { double x; unsigned long long u; memcpy(&x, p, 8); memcpy(&u, p, 8); if (x != x) fprintf(f, "nan:%016llx", u); else fprintf(f, "%.17g", x); break; }
         case M_USHORT: fprintf(f, "%u", (unsigned)*(const unsigned short *)p); break;
         case M_UINT: fprintf(f, "%u", *(const unsigned *)p); break;
